@@ -364,6 +364,10 @@ static void ProcessFile(char const* FileName, LongWord Offset) {
                     if (GroupLineLen > ((252u - MotRecType) & ~1u)) {
                         GroupLineLen = (252u - MotRecType) & ~1u;
                         GroupLineLen -= GroupLineLen % Gran;
+                        if (!GroupLineLen) {
+                            /* not even one addressable unit fits into a line */
+                            FormatError(FileName, getmessage(Num_FormatInvRecordHeaderMsg));
+                        }
                     }
 
                     /* Statistik, Anzahl Datenzeilen ausrechnen */
